@@ -147,6 +147,18 @@ def attend_scenarios(ctx, n, start_run):
     return out
 
 
+def growprocs_scenarios(ctx, n, start_run, procs):
+    """every processor parked behind a held run (one source each, far-away stream time-out), then one more source gets an event:
+    the pool must grow and attend it (ProcGrowth.tla).  procs = number of processors the harness process starts with."""
+    out = []
+    for k in range(n):
+        run = start_run + k
+        lines = [dict(id=i + 1, src=i + 1, stream="a", cls="H") for i in range(procs)] + [dict(id=procs + 1, src=procs + 1, stream="a", cls="P")]
+        out.append(base(run, name="all-processors-blocked-%d" % run, mode="random", window="growprocs", cap=procs + 8, workers=2, batch=1,
+                        flush_ms=10, timeout_ms=ctx.rng.choice([3000, 4000]), lines=lines, jitter=False))
+    return out
+
+
 def detach_scenarios(ctx, n, start_run):
     """a run flushed by a stream time-out, later an event that waits in a half-filled batch while its processor leaves the stream,
     and another event put during that detach: the stream must be re-charged when the first one is committed"""
